@@ -125,6 +125,8 @@ pub fn triple() -> BoxedStrategy<[f32; 3]> {
     prop_oneof![
         1 => Just([0.0f32, 0.0, 0.0]),
         1 => Just([1.0f32, 0.0, 0.0]),
+        // the program's own built-in default for RED1 / RED2: a user value equal to the default is still a user value
+        2 => Just([0.0f32, 1.3, 0.3]),
         22 => (one.clone(), one.clone(), one).prop_map(|(a, b, c)| [milli_f32(a), milli_f32(b), milli_f32(c)]),
     ]
     .boxed()
